@@ -163,11 +163,23 @@ func runC11(res *lib.Result, tier string, seed int64, args []string) error {
 					defined = true
 				}
 			}
-			if target == "G" && (multi > 1 || !defined) {
-				res.Dist("global.multi-or-undefined(unmodelled)")
-				continue
-			}
 			gs, ms, ss := strings.Join(got, " "), strings.Join(model, " "), strings.Join(spec, " ")
+			if target == "G" && (multi > 1 || !defined) {
+				// a global with several assignment sites (which one is "the" definition is the rank rule of the third pass, not
+				// in the reference model) or with none: the edits are compared with Lua's binding directly — every occurrence
+				if gs == ss {
+					res.Dist("global.multi-or-undefined.exact")
+					ms = gs // go on with (d)
+				} else if !defined {
+					res.HitKnown("C11-K3", "rename of a global that no file assigns (only read) edits nothing", fmt.Sprintf("rename edits [%s] but the occurrences of the global are [%s]\n%s", gs, ss, caseText))
+					res.Dist("hit.C11-K3")
+					continue
+				} else {
+					res.HitKnown("C11-K2", "rename of a global with several assignment sites leaves an assignment the rank rule does not count as the definition (e.g. the first one, inside a function, before a later top-level one) unedited: the renamed program assigns another global there", fmt.Sprintf("rename edits [%s] but the occurrences of the global are [%s]\n%s", gs, ss, caseText))
+					res.Dist("hit.C11-K2")
+					continue
+				}
+			}
 			if gs != ms {
 				res.AddViolation("impl-vs-model", fmt.Sprintf("rename edits [%s], the reference model predicts [%s], the binding class is [%s]", gs, ms, ss), caseText, !(gs != ss))
 				continue
